@@ -72,6 +72,9 @@ def execute(st, ctx):
     for t in range(ntenants):
         spec, _ = gen_tool(st, cfg, prefix="abc"[t] if ntenants > 1 else "")
         steps = bounded_steps(ch, spec) if TOOLS[spec.tool].infinite else None
+        if ch.chance(1, 5):
+            # the consumer asks one or two more times after it has been told the end
+            spec.p["again"] = ch.between(1, 2)
         run = Run(World(sim, own_log=True))
         spec._items_before = [ident(list(p.items)) for p in spec.srcs]
         faults = (None, None)
@@ -101,6 +104,10 @@ def execute(st, ctx):
                 out.faults["party_raises"] = 1
                 if f2 is not None:
                     out.faults["two_parties_prepared_to_fail"] = 1
+        if faults[0] is not None:
+            # after its end the stdlib twin may poll its inputs again where a finished generator does not (section 5 rule 2):
+            # a fault prepared there would make the comparison one about re-polling
+            spec.p.pop("again", None)
         spec._faults = faults
         sim.spawn(drive_tool(spec, run, steps, close=True))
         tenants.append((spec, steps, run))
